@@ -163,6 +163,20 @@ class Mirror:
                 del xs[idx:idx + cnt]
         elif op in ("setud", "setser"):
             pass
+        elif op == "ptrset":
+            root, toks, v = int(w[1]), ptr_tokens(w[2]), val(w[3])
+            if not toks:
+                self.ext[root] -= 1
+            else:
+                p = self.resolve(root, toks[:-1])
+                last = toks[-1]
+                if p is not None and self.body[p][0] == 'a':
+                    if last == "-":
+                        self.apply("aadd %d %s" % (p, vs(v)))
+                    elif valid_index(last) is not None:
+                        self.apply("aput %d %d %s" % (p, valid_index(last), vs(v)))
+                elif p is not None and self.body[p][0] == 'o':
+                    self.apply("oadd %d %s %s 0" % (p, hx(last), vs(v)))
         elif op == "copy":
             src, fail = int(w[1]), val(w[2])
             n = self.usize(src, cap=10000)
@@ -172,6 +186,26 @@ class Mirror:
                 root = self.clone(src)
                 self.ext[root] = 1
         self.sweep()
+
+    def resolve(self, cur, toks):
+        """node reached from cur by the reference tokens, or None (missing / null / scalar / bad index)"""
+        for t in toks:
+            if cur is None or cur not in self.body:
+                return None
+            b = self.body[cur]
+            if b[0] == 'a':
+                i = valid_index(t)
+                if i is None or i >= len(b[1]):
+                    return None
+                cur = b[1][i]
+            elif b[0] == 'o':
+                d = dict((k, v) for k, v in b[1])
+                if hx(t) not in d:
+                    return None
+                cur = d[hx(t)]
+            else:
+                return None
+        return cur
 
     def clone(self, src):
         d = self.next
@@ -189,6 +223,18 @@ class Mirror:
             self.body[d] = ['s']
         self.ext.setdefault(d, 0)
         return d
+
+
+def valid_index(t):
+    if not t or not t.isdigit() or (len(t) > 1 and t[0] == "0"):
+        return None
+    return min(int(t), SIZE_MAX)
+
+
+def ptr_tokens(hexpath):
+    if hexpath == "-":
+        return []
+    return bytes.fromhex(hexpath).decode().split("/")[1:]
 
 
 def vs(v):
@@ -281,6 +327,11 @@ def choose(rng, m):
             i = rng.choice(live)
             tok = "-" if rng.chance(0.12) else str(rng.randrange(100, 1000))
             return "%s %d %s" % (rng.choice(["setud", "setud", "setser"]), i, tok)
+        if k < 0.965 and live:
+            l = gen_ptrset(rng, m)
+            if l is None:
+                continue
+            return l
         if live:
             src = rng.choice(live)
             n = m.usize(src)
@@ -291,6 +342,65 @@ def choose(rng, m):
                 fail = str(rng.randrange(1, n + 2))
             return "copy %d %s" % (src, fail)
     return "newo" if not full else ("put %d" % owned[0] if owned else "newo")
+
+
+PLAIN_KEYS = ["a", "b", "k1", "key-longer-than-eight"]
+
+
+def gen_ptrset(rng, m):
+    """json_pointer_set(&root, path, v): walk down the mirror graph, then pick a last token"""
+    live = m.live()
+    if rng.chance(0.06) and m.owned():
+        root = rng.choice(m.owned())
+        c = [v for v in m.owned() if v != root or m.ext[v] > 1] + [None]
+        return "ptrset %d - %s" % (root, vs(rng.choice(c)))           # "" replaces the root variable
+    conts = [i for i in live if m.body[i][0] in "oa"]
+    if not conts:
+        return None
+    root = cur = rng.choice(conts)
+    toks = []
+    for _ in range(rng.randrange(0, 3)):
+        b = m.body[cur]
+        nxt = [(("%d" % i) if b[0] == 'a' else bytes.fromhex(e[0]).decode(), (e if b[0] == 'a' else e[1]))
+               for i, e in enumerate(b[1])]
+        nxt = [(t, c) for t, c in nxt if c is not None and m.body[c][0] in "oa"]
+        if not nxt:
+            break
+        t, cur = rng.choice(nxt)
+        toks.append(t)
+    r = rng.random()
+    if r < 0.12:
+        # a path that does not resolve: missing key / index past the end / through a scalar or null
+        toks.append(rng.choice(["nokey", "99", "0", "x"]))
+        toks.append(rng.choice(["a", "0", "-"]))
+        p = None
+    else:
+        p = cur
+    if p is not None:
+        b = m.body[p]
+        if b[0] == 'a':
+            n = len(b[1])
+            last = rng.choice(["-", "0", str(max(0, n - 1)), str(n), str(n + 2), "01", "x", "", "1e1",
+                               str(SIZE_MAX), str(1 << 61)])
+        else:
+            present = [bytes.fromhex(e[0]).decode() for e in b[1]]
+            last = rng.choice(present) if present and rng.chance(0.5) else rng.choice(PLAIN_KEYS)
+        toks.append(last)
+    path = "/" + "/".join(toks)
+    target = m.resolve(root, toks[:-1])
+    if target is not None and target in m.body and m.body[target][0] in "oa":
+        cur_v = None
+        if m.body[target][0] == 'o':
+            cur_v = dict((k, v) for k, v in m.body[target][1]).get(hx(toks[-1]))
+        v, ok = pick_val(rng, m, target, prefer=cur_v)
+        if not ok:
+            return None
+        if m.body[target][0] == 'o' and rng.chance(0.03):
+            v = target                                                   # jso == val: refused
+    else:
+        c = m.owned()
+        v = rng.choice(c) if c and rng.chance(0.8) else None
+    return "ptrset %d %s %s" % (root, hx(path), vs(v))
 
 
 def finish(m, lines, rng=None):
